@@ -400,6 +400,13 @@ def run(ctx):
         ctx.mismatch("the Python twin of Model/Objects.step disagrees with the Coq model on this history", meta[i], {"what": "twin-vs-model"})
     wrapper_stream(ctx, DATA)
     adapter_model_stream(ctx, DATA)
+    # detectors outside the state-machine model (CAPA, MVCAPA, the anomaliser): plain reuse histories against fresh objects
+    from harness.reuse import reuse_stream
+    from skchange.anomaly_detectors import CAPA, MVCAPA, StatThresholdAnomaliser
+    reuse_stream(ctx, "CAPA", lambda: CAPA(min_segment_length=2), ctx.n(8, 60))
+    reuse_stream(ctx, "MVCAPA", lambda: MVCAPA(min_segment_length=2), ctx.n(6, 40), p_choices=(2, 3))
+    reuse_stream(ctx, "StatThresholdAnomaliser(PELT)", lambda: StatThresholdAnomaliser(PELT(min_segment_length=2), stat_lower=-1.0, stat_upper=1.0), ctx.n(4, 30),
+                 p_choices=(1,), other_shape=False)
 
 
 def wrapper_stream(ctx, DATA):
@@ -443,7 +450,9 @@ def wrapper_stream(ctx, DATA):
                     want = mkfresh().fit(np.asarray(frozen[k])).evaluate(cuts[kind])
                     ctx.case({"wrap": h, "i": step}, nontrivial=len(hist) > 1)
                     ctx.count("wrapper_op", kind)
-                    if [float(v).hex() for v in got.reshape(-1)] != [float(v).hex() for v in want.reshape(-1)]:
+                    same = ([float(v).hex() for v in got.reshape(-1)] == [float(v).hex() for v in want.reshape(-1)]) if costK is not GaussianCovCost \
+                        else bool(np.all(np.abs(got - want) <= 1e-9 * (np.abs(got) + np.abs(want) + 1)))
+                    if not same:
                         ctx.violation(f"{type(w).__name__}({costK.__name__}).fit(D{k}) followed at once by evaluate differs from a fresh adapter fitted on D{k} "
                                       f"after the history {hist}", dict(inp, got=got.tolist(), fresh=want.tolist()),
                                       {"what": "history-dependence", "entry": "adapter-evaluate-after-fit", "adapter": type(w).__name__})
